@@ -38,6 +38,10 @@ Clauses(e) ==
           <<"positive-finite", e.raised \/ e.positive>>,
           <<"proportional-to-B2-over-A2", e.raised \/ Small(e.shape_dev, Tol)>>,
           <<"constant-is-rho-over-sampling", e.raised \/ ~e.rho_exposed \/ Small(e.const_dev, Tol)>> }
+    ELSE IF e.ev = "live" THEN
+        \* the exposed model of a live object follows its current lag / orders (= the functional estimate)
+        { <<"no-exception", ~e.raised>>,
+          <<"exposed-model-is-the-estimate-for-current-attributes", e.raised \/ Small(e.dev, Tol)>> }
     ELSE { <<"unknown-event", FALSE>> }
 
 VARIABLES l, fails
